@@ -89,3 +89,9 @@ claim("C08",
       "conditions; unknown vehicles are skipped; other events never touch a vehicle. Strategy-side half of 'disconnected SoC "
       "constant' is sampled under C06. Same correspondence and reference as C07.",
       TB + AX_R + ".", "Coq proof over event model + exact differential correspondence + independent reference", "5.8")
+claim("C12",
+      "Model of calculate_costs (all seven schemes) tied to /repo by exact correspondence of the returned dictionary and the "
+      "written 'costs' section (2-decimal half-even rounding reproduced); theorems: see props/C12.v. Relational clauses (repeat, "
+      "halving, energy-proportional terms, composition, tariff class) are also evaluated on the implementation for every "
+      "generated case, away from bracket boundaries where one ulp of the float-computed year fraction decides.",
+      TB + AX_R + ".", "Coq proof over hand model of the tariff arithmetic + exact differential correspondence", "5.12")
